@@ -7,6 +7,7 @@ import (
 	"fmt"
 	"os"
 	"path/filepath"
+	"strings"
 	"testing"
 	"time"
 
@@ -46,4 +47,14 @@ func closeBounded(c interface{ Close() }) bool {
 	done := make(chan struct{})
 	go func() { c.Close(); close(done) }()
 	return waitWedge(done)
+}
+
+// getenvGodebug returns the value of one GODEBUG setting from the environment.
+func getenvGodebug(key string) string {
+	for _, kv := range strings.Split(os.Getenv("GODEBUG"), ",") {
+		if strings.HasPrefix(kv, key+"=") {
+			return strings.TrimPrefix(kv, key+"=")
+		}
+	}
+	return ""
 }
